@@ -128,8 +128,7 @@ def monAccepted (what : String) (isReq : Bool) (lim : Int) (fs : List (List Nat 
     let bad := failingClauses isReq lim fs
     (if bad.isEmpty then []
      else
-       let cls := if bad == ["cl_numeric"] && (clValuesOf fs).all (· == []) then "empty_content_length" else "-"
-       [("accept_wellformed", cls, s!"{what} accepted a section violating: {",".intercalate bad}")]) ++
+       [("accept_wellformed", "-", s!"{what} accepted a section violating: {",".intercalate bad}")]) ++
     (if qerr then [("qpack_error_ignored", "-", s!"{what} accepted although the decoder reported an error")] else [])
 
 /-- completeness direction, only for what the statement covers: a well-formed section whose
@@ -244,15 +243,13 @@ def step (s : St) (op impl : String) : St × StepOut :=
       let hostOk := match puny with
         | some h => !h.isEmpty
         | none => false
-      let teBad := H.any (fun (kv : List Nat × List (List Nat)) => lower kv.1 == B "te" && kv.2.any (· != B "trailers"))
       -- a client request has an absolute URL (scheme and host) — net/http's Transport refuses anything else
       let validMsg := validHeaderMap H && T.all isToken && hostOk && !scheme.isEmpty
       let fails : List Fail := Id.run do
         let mut fails : List Fail := []
         if implW.startsWith "ok" && validMsg then
           if implP.startsWith "E:" then
-            let cls := if teBad && implP == "E:te" then "request_te_not_trailers" else "-"
-            fails := fails ++ [("writer_output_accepted", cls, s!"request writer output rejected by requestFromHeaders: {implP}")]
+            fails := fails ++ [("writer_output_accepted", "-", s!"request writer output rejected by requestFromHeaders: {implP}")]
           else
             -- decodes to the same fields
             let isConnect := method == mConnect
@@ -352,11 +349,9 @@ def step (s : St) (op impl : String) : St × StepOut :=
     let clVals := (emitted.filter (fun (kv : List Nat × List (List Nat)) => lower kv.1 == B "content-length")).flatMap (·.2)
     let validMsg := validHeaderMap emitted && clVals.length ≤ 1 && clVals.all (fun v => !v.isEmpty && v.all (fun b => 48 ≤ b && b ≤ 57) && decVal v < 2 ^ 63) &&
       100 ≤ st && st ≤ 999
-    let connSpecific := emitted.any (fun (kv : List Nat × List (List Nat)) => connectionSpecific.contains (lower kv.1) ||
-      (lower kv.1 == B "te" && kv.2.any (· != B "trailers")))
     let fails : List Fail :=
       if validMsg && implW.startsWith "ok" && implP.startsWith "E:" then
-        [("response_output_accepted", if connSpecific && (implP == "E:name" || implP == "E:te") then "response_connection_specific" else "-",
+        [("response_output_accepted", "-",
           s!"responseWriter.writeHeader output rejected by updateResponseFromHeaders: {implP}")]
       else if validMsg && implP.startsWith "ok" && !implP.startsWith s!"ok code={fmtInt st} " then
         [("response_roundtrip", "-", s!"status differs: {implP} expected {fmtInt st}")]
@@ -409,16 +404,13 @@ def step (s : St) (op impl : String) : St × StepOut :=
     let implT := ((parts.getD 2 "").drop 2).toString
     let clVals := (pre.filter (fun (kv : List Nat × List (List Nat)) => lower kv.1 == B "content-length")).flatMap (·.2)
     let validMsg := validHeaderMap pre && clVals.length ≤ 1
-    let connSpecific := pre.any (fun (kv : List Nat × List (List Nat)) => connectionSpecific.contains (lower kv.1) ||
-      (lower kv.1 == B "te" && kv.2.any (· != B "trailers")))
     let declared : List (List Nat) := (pre.filter (fun (kv : List Nat × List (List Nat)) => kv.1 == B "Trailer")).flatMap fun (kv : List Nat × List (List Nat)) =>
       kv.2.flatMap fun v => (splitOn 44 v).map fun x => capitalise true (lower (trimString x))
     let fails : List Fail := Id.run do
       let mut fails : List Fail := []
       if validMsg && !implW.startsWith "E:" then
         if implP.startsWith "E:" then
-          let cls := if connSpecific && (implP == "E:name" || implP == "E:te") then "response_connection_specific" else "-"
-          fails := fails ++ [("response_output_accepted", cls, s!"response writer output rejected by updateResponseFromHeaders: {implP}")]
+          fails := fails ++ [("response_output_accepted", "-", s!"response writer output rejected by updateResponseFromHeaders: {implP}")]
         else if implP.startsWith "ok" then
           let expCode : Int := if st ≥ 200 then st else 200
           if !implP.startsWith s!"ok code={fmtInt expCode} " then
